@@ -88,6 +88,11 @@ type memListener struct {
 	ch   chan *memConn
 	done chan struct{}
 	once sync.Once
+	// onAccept, when set, is called at the entry of every Accept with the number of the call (1-based), on
+	// the goroutine of the accept loop: the one place of Serve's loop the harness executes code in without a
+	// yield hook — right after `go srv.handleConn(conn)` of the previous connection.
+	onAccept func(n int)
+	nAccept  atomic.Int32
 }
 
 func newMemListener() *memListener {
@@ -95,6 +100,9 @@ func newMemListener() *memListener {
 }
 
 func (l *memListener) Accept() (net.Conn, error) {
+	if f := l.onAccept; f != nil {
+		f(int(l.nAccept.Add(1)))
+	}
 	select {
 	case c := <-l.ch:
 		return c, nil
@@ -2026,27 +2034,44 @@ func runSrvJob(job *ltsJob) *ltsRes {
 			ci.point = point
 		}
 	}
-	ts.start()
 	shutdownDone := make(chan struct{})
 	var shutdownStart, shutdownEnd time.Time
 	var once sync.Once
 	obs := &srvObs{}
-	callShutdown := func() {
-		once.Do(func() {
-			go func() {
-				shutdownStart = time.Now()
-				_ = ts.srv.Shutdown()
-				// the moment Shutdown returns
-				obs.HandlersAtRe = int(w.running.Load())
-				w.returned.Store(true)
-				m, rr, ww := connGoroutines()
-				obs.OwnersAtRet = m
-				obs.RWAtRet = rr + ww
-				shutdownEnd = time.Now()
-				close(shutdownDone)
-			}()
-		})
+	doShutdown := func() {
+		shutdownStart = time.Now()
+		_ = ts.srv.Shutdown()
+		// the moment Shutdown returns
+		obs.HandlersAtRe = int(w.running.Load())
+		w.returned.Store(true)
+		m, rr, ww := connGoroutines()
+		obs.OwnersAtRet = m
+		obs.RWAtRet = rr + ww
+		shutdownEnd = time.Now()
+		close(shutdownDone)
 	}
+	callShutdown := func() { once.Do(func() { go doShutdown() }) }
+	var spawned atomic.Bool
+	if sc.Sd == "spawn" {
+		// Shutdown runs between `go srv.handleConn(conn)` of the last connection and the first instruction
+		// of that goroutine — the window in which only a registration made by the ACCEPT LOOP (wg.Add before
+		// `go`) makes Shutdown wait for the connection. No yield hook can sit there (a hook inside handleConn
+		// is already too late: whatever precedes it has run), but the accept loop's next statement is
+		// listener.Accept(), which is the harness's: Shutdown is called right there, on the loop's own
+		// goroutine, as if the loop had been pre-empted by the caller of Shutdown. The goroutine just created
+		// still has to be picked up by a processor (tens of microseconds when another processor has to be
+		// woken for it, not before the loop blocks otherwise); a Shutdown that does not have to wait for it
+		// is over in a few microseconds (measured: it wins 39 times out of 40 with 16 processors, 40 / 40
+		// with 2). With the connection registered by the accept loop, Shutdown waits until the connection
+		// has been drained, whoever runs first; the loop's Accept then fails with the closed listener.
+		ts.l.onAccept = func(n int) {
+			if n == sc.N+1 {
+				spawned.Store(true)
+				once.Do(doShutdown)
+			}
+		}
+	}
+	ts.start()
 	if sc.Sd == "start" {
 		callShutdown()
 		<-shutdownDone
@@ -2174,6 +2199,15 @@ func runSrvJob(job *ltsJob) *ltsRes {
 	case sc.Sd == "quiet":
 		w.waitQuiet(quietIdle, 3*time.Second, nil)
 		callShutdown()
+	case sc.Sd == "spawn":
+		select {
+		case <-shutdownDone:
+		case <-time.After(1500 * time.Millisecond):
+			callShutdown() // the accept loop never came back to Accept (or Shutdown hangs: reported below)
+		}
+		if spawned.Load() {
+			res.count("server.held:spawn")
+		}
 	}
 	select {
 	case <-shutdownDone:
@@ -2368,6 +2402,14 @@ func genSrvScenarios(ctx *Ctx) []*srvScen {
 			}
 		}
 	}
+	// Shutdown between `go handleConn` and the first instruction of the new goroutine
+	for _, k := range []string{"i", "r", "f", "p"} {
+		for _, n := range []int{1, 2} {
+			for rep := 0; rep < ctx.N(2, 6); rep++ {
+				out = append(out, &srvScen{N: n, Kind: k, Sd: "spawn", Seed: uint64(rep)})
+			}
+		}
+	}
 	// registration racing with Shutdown (seed % 3 == 2: both released at the same moment)
 	for rep := 0; rep < ctx.N(40, 300); rep++ {
 		out = append(out, &srvScen{N: 1 + rep%2, Kind: rng.Pick(ctx.R, []string{"i", "r", "r", "f"}), Sd: "accept" + strconv.Itoa(1+rep%2), Seed: uint64(3*rep + 2)})
@@ -2494,7 +2536,7 @@ func runLtsServer(ctx *Ctx) {
 				ctx.Res.Fail("Shutdown was never injected while a goroutine was held at " + pt)
 			}
 		}
-		for _, k := range []string{"server.held:accept", "server.held:handler", "server.held:hook", "tls.stalled-in-handshake", "tls.served", "tls.neighbour-served"} {
+		for _, k := range []string{"server.held:accept", "server.held:spawn", "server.held:handler", "server.held:hook", "tls.stalled-in-handshake", "tls.served", "tls.neighbour-served"} {
 			if ctx.Res.Distribution[k] == 0 {
 				ctx.Res.Fail("coverage floor: " + k + " = 0")
 			}
@@ -2513,7 +2555,7 @@ func init() {
 	})
 	register(&Engine{
 		Name: "lts.server",
-		Rule: "the real kmipserver.Server (Serve + Shutdown) over in-memory connections in child processes (positive control per child): 1-2 clients of kind {idle, one request, two pipelined requests, failing connect hook, disconnecting at a random time, handler waiting for its context, client that never reads its response} x Shutdown called {at a random time, before any connection, while the accept loop is held between Accept and registration of the 1st/2nd connection (Shutdown completing before / overlapping / released at the same moment as the loop), when quiescent, while a handler is held running, while a connect hook is held running, while a goroutine of a connection is held at each of the 5 connection yield points}; random delays at all yield points; tls jobs: a peer stalled in the TLS handshake (silent / partial record) while Shutdown is called, and while other peers must be served; observed at the return of Shutdown and after settling: Serve's return, running handlers, alive owner and reader/writer goroutines, hook counts and order, Shutdown duration relative to the 3 s grace period, the responses each client received (compared with the handlers that ran), the server-side close of every connection incl. refused ones; gates: Shutdown injected at least once at every directed point; distinct = distinct (scenario, outcome) line; nontrivial = 2 connections or traffic",
+		Rule: "the real kmipserver.Server (Serve + Shutdown) over in-memory connections in child processes (positive control per child): 1-2 clients of kind {idle, one request, two pipelined requests, failing connect hook, disconnecting at a random time, handler waiting for its context, client that never reads its response} x Shutdown called {at a random time, before any connection, while the accept loop is held between Accept and registration of the 1st/2nd connection (Shutdown completing before / overlapping / released at the same moment as the loop), between `go handleConn` and the first instruction of the new goroutine (Shutdown called from the listener's Accept, on the accept loop's goroutine), when quiescent, while a handler is held running, while a connect hook is held running, while a goroutine of a connection is held at each of the 6 connection yield points (the first statement of handleConn included)}; random delays at all yield points; tls jobs: a peer stalled in the TLS handshake (silent / partial record) while Shutdown is called, and while other peers must be served; observed at the return of Shutdown and after settling: Serve's return, running handlers, alive owner and reader/writer goroutines, hook counts and order, Shutdown duration relative to the 3 s grace period, the responses each client received (compared with the handlers that ran), the server-side close of every connection incl. refused ones; gates: Shutdown injected at least once at every directed point; distinct = distinct (scenario, outcome) line; nontrivial = 2 connections or traffic",
 		Run:  runLtsServer,
 	})
 }
